@@ -59,7 +59,7 @@ enum
 {
     T_TRACKED = 0, // uint64 keys, Tracked values
     T_STRING  = 1, // std::string keys and values
-    T_RAW     = 2  // uint64 keys, uint64 values
+    T_BIG     = 2  // uint64 keys, BigTracked values (> 256 bytes, torn copies recognisable)
 };
 
 struct Caps
